@@ -3,3 +3,4 @@ open GoMail.Props.C03
 #print axioms failed_render_is_reported
 #print axioms delivered_requires_complete_render
 #print axioms no_error_means_delivered
+#print axioms eod_only_behind_complete_content
